@@ -1,3 +1,5 @@
+//go:build verif
+
 package props
 
 import (
@@ -11,6 +13,7 @@ import (
 	"pgregory.net/rapid"
 
 	host "github.com/bianjieai/tibc-go/modules/tibc/core/24-host"
+	ethtypes "github.com/bianjieai/tibc-go/modules/tibc/light-clients/09-eth/types"
 
 	"verifharness/sim"
 	"verifharness/world"
@@ -24,10 +27,10 @@ type C16Case struct {
 }
 
 var profileC16Hist = []kindW{{"mocksend", 5}, {"nftsend", 5}, {"mtsend", 4}, {"round", 8}, {"flow", 5}, {"clean", 4}, {"cleanflow", 4}, {"update", 3},
-	{"slashheight", 2}, {"commit", 1}, {"rules", 1}, {"nftmint", 1}, {"mtmint", 1}, {"replay", 1}, {"burst", 1}}
+	{"slashheight", 2}, {"commit", 1}, {"rules", 1}, {"nftmint", 1}, {"mtmint", 1}, {"replay", 1}, {"burst", 1}, {"bscupd", 3}, {"ethupd", 2}}
 
 var profileC16Cont = []kindW{{"nftsend", 4}, {"mtsend", 3}, {"round", 6}, {"flow", 6}, {"recv", 3}, {"ack", 3}, {"clean", 3}, {"cleanflow", 3}, {"stale", 3},
-	{"replay", 4}, {"update", 3}, {"commit", 1}, {"nftxfer", 1}, {"recvclean", 2}}
+	{"replay", 4}, {"update", 3}, {"commit", 1}, {"nftxfer", 1}, {"recvclean", 2}, {"bscupd", 3}, {"ethupd", 2}}
 
 func genC16(t *rapid.T) C16Case {
 	return C16Case{
@@ -57,6 +60,14 @@ func keyClass(store string, key []byte) string {
 		return "tendermint-processed-time"
 	case strings.HasPrefix(k, "clients/") && strings.Contains(k, "/consensusStates/"):
 		return "consensus-state"
+	case strings.HasPrefix(k, "clients/") && strings.Contains(k, "/recentSingers"):
+		return "bsc-recent-signers"
+	case strings.HasPrefix(k, "clients/") && strings.Contains(k, "/pendingValidators"):
+		return "bsc-pending-validators"
+	case strings.HasPrefix(k, "clients/") && strings.Contains(k, "/ethHeaderIndex"):
+		return "eth-header-index"
+	case strings.HasPrefix(k, "clients/") && strings.Contains(k, "/ethRootMain"):
+		return "eth-root-index"
 	case strings.HasPrefix(k, "clients/") && strings.HasSuffix(k, "/clientState"):
 		return "client-state"
 	case strings.HasPrefix(k, "commitments/"):
@@ -129,6 +140,29 @@ func checkC16(c C16Case, col *Collector) outcome {
 	w := world.New(world.Config{N: n})
 	s := sim.New(w)
 	x := w.Chains[w.Order[0]]
+	ethtypes.SkipSealCheck = true
+	defer func() { ethtypes.SkipSealCheck = false }()
+	fc, fv := newForeignClients(w, x)
+	if fv != nil {
+		fv.Property = "C16"
+		return outcome{V: fv}
+	}
+	// BSC / ETH client updates are not simulator operations: route them to the helper
+	run := func(ops []sim.Op) outcome {
+		for _, op := range ops {
+			switch op.K {
+			case "bscupd":
+				fc.bscUpdate(op)
+			case "ethupd":
+				fc.ethUpdate(op)
+			default:
+				if v := s.Apply(op); v != nil {
+					return outcome{V: v, Trace: s.Trace}
+				}
+			}
+		}
+		return outcome{}
+	}
 	// a fixed prefix makes sure the exported chain has a clean point, a delivered inbound transfer (voucher
 	// class trace), a pending commitment and a consensus state at height 47
 	rich := []sim.Op{
@@ -136,8 +170,9 @@ func checkC16(c C16Case, col *Collector) outcome {
 		{K: "nftsend", A: 1, B: 0, C: 0, D: 0, U: 0}, {K: "round", A: 1},
 		{K: "mtsend", A: 1, B: 0, C: 0, D: 0, U: 0}, {K: "round", A: 2},
 		{K: "mocksend", A: 0, B: 0}, {K: "slashheight", A: 0, B: 0},
+		{K: "bscupd", D: 3, B: 1}, {K: "bscupd", D: 2, B: 2}, {K: "ethupd"}, {K: "ethupd", A: 1},
 	}
-	if out := runOps(s, append(append(tokenPreamble(n), rich...), c.Hist...)); out.V != nil {
+	if out := run(append(append(tokenPreamble(n), rich...), c.Hist...)); out.V != nil {
 		return out
 	}
 	v := func(sig, format string, a ...any) outcome {
@@ -252,7 +287,8 @@ func checkC16(c C16Case, col *Collector) outcome {
 		}
 		return nil
 	}}
-	out := runOps(s, c.Cont)
+	out := run(c.Cont)
+	col.AddLabels(fc.Labels)
 	if out.V != nil {
 		out.Trace = tail(s.Trace, 15)
 		return out
